@@ -65,7 +65,7 @@ func (fr *Frame) recoveringFrame() *Frame {
 func (fr *Frame) runDefersIfAny(st *State) {}
 
 func (fr *Frame) runDefers(st *State) {
-	fr.execDefers(st, term("nilIface", types.NewInterfaceType(nil, nil)))
+	fr.execDefers(st, term("nilIface", anyType))
 }
 
 func (fr *Frame) execDefers(st *State, rec *Val) {
@@ -128,7 +128,7 @@ func (fr *Frame) finishPanics() {
 	}
 	rv := u.w.newConst("recovered", "Iface")
 	u.fact(fmt.Sprintf("(distinct (ityp %s) T_nil)", rv))
-	fr.execDefers(sp, term(rv, types.NewInterfaceType(nil, nil)))
+	fr.execDefers(sp, term(rv, anyType))
 	if sp.dead {
 		return
 	}
